@@ -23,7 +23,7 @@ PROBE_FLOORS = {"two_margined_open": 100, "three_margined_open": 20, "negative_c
 PROFILE = {
     "oracles": ["c05"],
     "mix": {"quote": 3, "trade": 3, "rebal": 0.7, "mark": 1.5, "value": 1.5, "advance": 0.2},
-    "p_margined": 0.75, "p_observe_every": 0.5, "p_frictionless": 0.1, "min_contracts": 2,
+    "p_margined": 0.75, "p_observe_every": 0.5, "p_frictionless": 0.1, "min_contracts": 2, "p_whole_lots": 0.15,
     "motifs": [(0.3, gen_acct.motif_margin_call), (0.15, gen_acct.motif_flip),
                (0.15, gen_acct.motif_add_margined_under_spread), (0.1, gen_acct.motif_spot_multiplier),
                (0.15, gen_acct.motif_near_close), (0.15, gen_acct.motif_one_sided_liquidation_quote)],
